@@ -115,7 +115,19 @@ pub fn check_one(r: &mut Report, prop: &str, mode: Mode, alg: Alg, lv: &[Level],
         }
     }
     if !reachable {
+        // a counter at or beyond the number of leaves (last + 1 and further: a damaged or foreign key
+        // file).  The statement's successor rule is "c + 1 until the last leaf and the wiped state
+        // after it": advancing such a key must end in the wiped state, never in a usable key.
         r.count("unreachable_counters_probed", 1);
+        if let Ok(Ok(got)) = &out.successor {
+            if !hss::is_wiped(got, alg.n()) {
+                r.violation(
+                    &format!("{prop}:successor:{shape_class}:beyond_last_leaf"),
+                    &format!("successor of counter {counter} (beyond the last leaf {}) for heights [{}] is {} instead of the wiped key", total - 1, hs.join(","), model::json::hex(got)),
+                    replay(),
+                );
+            }
+        }
         return;
     }
     if mode == Mode::LeafSelection {
